@@ -300,6 +300,10 @@ def stmt_items(stmt, arname):
     if m:
         return [norm_expr(m.group(1))]
     # base-class / member calls: X::read(archive), X::write(archive), x.read(archive)
+    # read/write that forward to the class's own serialize template: `serialize(archive, 0)`,
+    # `const_cast<X&>(*this).serialize(archive, 0)` — the items of that template are inlined by the caller
+    if re.match(r"^(?:const_cast<[^()]*>\(\*this\)\.|this->)?serialize\s*\(\s*" + re.escape(arname) + r"\b", stmt):
+        return ["self:serialize"]
     m = re.match(r"^((?:[\w<>, ]+::)+)(read|write|load|save|serialize)\s*\(\s*" + re.escape(arname) + r"\b", stmt)
     if m:
         return ["base:" + re.sub(r"\s+", "", m.group(1)).rstrip(":")]
@@ -585,6 +589,10 @@ def main():
             w = good_writes[idx] if idx < len(good_writes) else None
             ritems = archive_items(r["body"], r["arname"]) if r else []
             witems = archive_items(w["body"], w["arname"]) if w else []
+            if sers:
+                own = archive_items(sers[0]["body"], sers[0]["arname"])
+                ritems = [y for x in ritems for y in (own if x == "self:serialize" else [x])]
+                witems = [y for x in witems for y in (own if x == "self:serialize" else [x])]
             if r:
                 for mm_ in re.finditer(r"\bfor\s*\(\s*(?:const\s+)?(?:auto|[\w:<>]+)\s+(\w+)\s*:", r["body"]):
                     var = mm_.group(1)
